@@ -1634,3 +1634,170 @@ def virt_space(tier):
                     for pure in (False, True):
                         out.append((bs, ds, inh, cn, pure))
     return out
+
+
+# ------------------------------------------ C04: signatures involving a hidden nested type
+
+PROT_REACH = ("direct", "ptr", "cref",
+              "td:private", "td:protected", "td:public", "td:published",
+              "tdptr:private", "tdptr:protected", "tdptr:public", "tdptr:published",
+              "tdtd:public", "tdtd:published")
+PROT_USE = ("param", "ret", "data", "fptr")
+
+
+class ProtAtom:
+    """class <p>C declares a nested class or enum <p>H in a private/protected section and a
+    __published member <p>_u whose signature involves H: directly, through a pointer or
+    const reference, through a typedef (of H, of H*, of a typedef) declared in any section.
+    "its signature involves no private/protected type" -> <p>_u is never exported; its
+    public-typed siblings <p>_ok / <p>_okd still are."""
+
+    def __init__(self, prefix, hide, hkind, reach, use):
+        self.p, self.hide, self.hkind, self.reach, self.use = prefix, hide, hkind, reach, use
+        self.key = "prot:%s:%s:%s:%s" % (hide, hkind, reach, use)
+        self.cname = prefix + "C"
+
+    def render(self):
+        p, C = self.p, self.cname
+        H, A, A2 = p + "H", p + "A", p + "A2"
+        L = ["class %s {" % C, "%s:" % self.hide]
+        L.append("  class %s {};" % H if self.hkind == "class" else "  enum %s { %s_ha, %s_hb };" % (H, p, p))
+        r = self.reach
+        if r == "direct":
+            T = H
+        elif r == "ptr":
+            T = H + " *"
+        elif r == "cref":
+            T = "const %s &" % H
+        else:
+            form, sec = r.split(":")
+            L.append("%s:" % SECTION_KW[sec])
+            if form == "td":
+                L.append("  typedef %s %s;" % (H, A))
+                T = A + (" *" if self.hkind == "class" else "")
+            elif form == "tdptr":
+                L.append("  typedef %s *%s;" % (H, A))
+                T = A
+            else:
+                L.append("  typedef %s *%s;" % (H, A))
+                L.append("  typedef %s %s;" % (A, A2))
+                T = A2
+        L.append("__published:")
+        u = p + "_u"
+        if self.use == "param":
+            L.append("  int %s(%s x);" % (u, T))
+        elif self.use == "ret":
+            L.append("  %s %s();" % (T, u))
+        elif self.use == "data":
+            L.append("  %s %s;" % (T, u) if "&" not in T else "  int %s(%s x, int y);" % (u, T))
+        else:
+            L.append("  int %s(int (*cb)(%s));" % (u, T))
+        L += ["  int %s_ok(int a);" % p, "  int %s_okd;" % p, "};"]
+        return "\n".join(L) + "\n"
+
+    def model(self, promiscuous, cmd, local):
+        p = self.p
+        file_ok = local and cmd != "ignorefile"
+        pa = lambda c: "present" if c else "absent"
+        v = {"%s_u" % p: "absent", "%sH" % p: "absent",
+             "%s_ok" % p: pa(file_ok), "%s_okd" % p: pa(file_ok), "@class": pa(file_ok)}
+        if not self.reach.startswith(("direct", "ptr", "cref")):
+            v["%sA" % p] = "free" if file_ok else "absent"
+            if self.reach.startswith("tdtd"):
+                v["%sA2" % p] = "free" if file_ok else "absent"
+        self.why = {"%sA" % p: "a typedef aliasing a hidden nested type is itself not a signature"}
+        return v
+
+
+def prot_space(tier):
+    return [(h, k, r, u) for h in ("private", "protected") for k in ("class", "enum")
+            for r in PROT_REACH for u in PROT_USE]
+
+
+# ----------------------------------------------------- C05: data members x typedef depth
+
+MEMBER_TYPES = ("int", "const_int", "int_ptr", "const_int_ptr", "int_ptr_const", "enum",
+                "struct", "struct_ptr", "const_struct", "array", "ref")
+_MT = {  # raw spelling with %s for the declarator name, initializer, expected setter rule
+    "int": ("int %s", "2", "yes"), "const_int": ("const int %s", "2", "no"),
+    "int_ptr": ("int *%s", "nullptr", "yes"), "const_int_ptr": ("const int *%s", "nullptr", "yes"),
+    "int_ptr_const": ("int *const %s", "nullptr", "no"), "enum": ("zGE %s", "zge_a", "yes"),
+    "struct": ("zV %s", "zV()", "free"), "struct_ptr": ("zV *%s", "nullptr", "yes"),
+    "const_struct": ("const zV %s", "zV()", "no"), "array": ("int %s[4]", "{1, 2, 3, 4}", "free"),
+    "ref": ("int &%s", None, "free"),
+}
+
+
+class MemberAtom(Atom5):
+    """class <p>C with one __published data member <p>_d whose type is `mtype` seen through
+    `depth` typedef levels (0 = written directly), static or not, with or without an
+    initializer.  Whether the member is assignable is taken from g++ (probe_line)."""
+
+    def __init__(self, prefix, mtype, depth, static, init):
+        self.p, self.mtype, self.depth, self.static, self.init = prefix, mtype, depth, static, init
+        self.key = "member:%s:td%d:%s:%s" % (mtype, depth, "static" if static else "inst",
+                                             "init" if init else "noinit")
+        self.cname = prefix + "C"
+
+    def render(self):
+        p, C = self.p, self.cname
+        spell, ini, _ = _MT[self.mtype]
+        L = []
+        if self.mtype == "ref":
+            L.append("extern int %s_g;" % p)
+            ini = "%s_g" % p
+        if self.depth == 0:
+            decl = spell % (p + "_d")
+        else:
+            L.append("typedef %s;" % (spell % (p + "T1")))
+            for i in range(2, self.depth + 1):
+                L.append("typedef %sT%d %sT%d;" % (p, i - 1, p, i))
+            decl = "%sT%d %s_d" % (p, self.depth, p)
+        if self.static:
+            decl = "static " + decl
+        if self.init:
+            decl += " = " + ini
+        L += ["class %s {" % C, "__published:", "  %s;" % decl, "  int %s_m();" % p, "};"]
+        return "\n".join(L) + "\n"
+
+    def probe_line(self):
+        expr = ("%s::%s_d" % (self.cname, self.p)) if self.static else \
+            ("std::declval<%s &>().%s_d" % (self.cname, self.p))
+        return '  printf("%s %%d\\n", (int)vf_asg<std::remove_reference<decltype((%s))>::type>::value);' \
+               % (self.p, expr)
+
+    def truth(self, assignable):
+        p, C = self.p, self.cname
+        rule = _MT[self.mtype][2]
+        return {"member": {"scoped": "%s::%s_d" % (C, p), "getter": "%s::get_%s_d" % (C, p),
+                           "setter": "%s::set_%s_d" % (C, p), "assignable": assignable[p],
+                           "rule": rule, "static": self.static},
+                "classes": [{"scoped": C, "kind": "class", "outer": None, "bases": [],
+                             "elements": ["%s::%s_d" % (C, p)]}]}
+
+
+def member_space(tier):
+    out = []
+    for mt in MEMBER_TYPES:
+        for depth in (0, 1, 2, 3):
+            for static in (False, True):
+                for init in (False, True):
+                    if init and static and mt != "const_int":
+                        continue        # only a const integral static member may be initialised in-class
+                    if init and mt == "array" and depth > 0:
+                        pass
+                    out.append((mt, depth, static, init))
+    return out
+
+
+def member_probe_source(atoms, header_name):
+    L = ['#include <cstdio>', '#include <cstddef>', '#include <type_traits>', '#include <utility>',
+         '#include "%s"' % header_name,
+         "template<class T> struct vf_asg : std::is_assignable<T &, const T &> {};",
+         "template<class E, std::size_t N> struct vf_asg<E[N]> : vf_asg<E> {};",
+         "template<class E, std::size_t N> struct vf_asg<const E[N]> : vf_asg<const E> {};",
+         "int main() {"]
+    for a in atoms:
+        L.append(a.probe_line())
+    L.append("  return 0;\n}")
+    return "\n".join(L) + "\n"
